@@ -180,6 +180,21 @@ def exhaustive_small(limit=None):
     out.append({"base": 0, "cfg": DEFAULT_CFG, "ops": []})
     out.append({"base": 0, "cfg": DEFAULT_CFG, "ops": [{"w": [1, 1, 0, True, "aa"]}]})
     out.append({"base": 0, "cfg": DEFAULT_CFG, "ops": [{"add": tc("ttxt")}, {"w": [1, 1, 0, True, "aa"]}, {"add": tc("vp9")}, {"w": [2, 1, 0, True, "bb"]}, {"w": [1, 1, 0, True, "cc"]}]})
+    # add_track calls the muxer rejects (zero timescale, SPS shorter than 4 bytes) before, between and after accepted ones: the accepted tracks are 1, 2, ... regardless
+    bad0, bad1 = tc("vp9", ts=0), tc("avc", ts=1000, sps="6742", pps="68ee3c80")
+    for pattern in (("B", "G"), ("G", "B", "G"), ("B", "B", "G", "G"), ("G", "G", "B"), ("B", "G", "b", "G", "B")):
+        ops, good = [], 0
+        for j, c in enumerate(pattern):
+            if c == "G":
+                good += 1
+                ops.append({"add": tc(("avc", "aac", "ttxt")[good % 3], ts=(1000, 48000, 600)[good % 3])})
+            else:
+                ops.append({"add": bad0 if c == "B" else bad1})
+            if good:
+                ops.append({"w": [good, 100 + j, 0, True, "a%d" % j]})
+        for t in range(1, good + 1):
+            ops.append({"w": [t, 7, 0, False, "ff0%d" % t]})
+        out.append({"base": 0, "cfg": DEFAULT_CFG, "ops": ops})
     # a non-zero start position
     out.append({"base": 1000, "cfg": DEFAULT_CFG, "ops": [{"add": tc("avc")}, {"w": [1, 1000, 0, True, "aabb"]}, {"w": [1, 1000, 0, False, "cc"]}]})
     if limit:
@@ -218,17 +233,30 @@ def random_history(rng, max_tracks=4, max_samples=120, bad=0.05):
             kw = {"bitrate": rng.choice([0, 64000, 128000, U32 - 1]), "profile": rng.choice(enum_names("AudioObjectType")),
                   "freq_index": rng.choice(enum_names("SampleFreqIndex")), "chan_conf": rng.choice(enum_names("ChannelConfig"))}
         confs.append(tc(kind, ts=ts, lang=lang, **kw))
-    # adds mostly first, sometimes late
+    def rejected_conf():
+        # configurations add_track refuses: zero timescale (any kind), an AVC SPS shorter than 4 bytes; the muxer's state must be as if the call never happened
+        k = rng.choice(["ts0", "ts0", "sps"])
+        if k == "sps":
+            return tc("avc", ts=rng.choice([1, 1000]), sps=bytes(rng.randrange(256) for _ in range(rng.choice([0, 1, 3]))).hex(), pps="68ee3c80")
+        return tc(rng.choice(KINDS), ts=0)
+    # adds mostly first, sometimes late; one history in four has add_track calls the muxer rejects, before / between / after the accepted ones
+    with_rejected = rng.random() < 0.25
     late = []
     for c in confs:
+        if with_rejected and rng.random() < 0.5:
+            ops.append({"add": rejected_conf()})
         if rng.random() < 0.8:
             ops.append({"add": c})
         else:
             late.append(c)
+    if with_rejected and rng.random() < 0.5:
+        ops.append({"add": rejected_conf()})
     nsamp = rng.randint(0, max_samples)
     style = rng.choice(["mixed", "fixed", "zeros", "allsync", "nosync", "cts"])
-    live = len(ops)
+    live = sum(1 for o in ops if "add" in o and conf_accepted(o["add"]))
     for i in range(nsamp):
+        if with_rejected and rng.random() < 0.03:
+            ops.append({"add": rejected_conf()})
         if late and rng.random() < 0.1:
             ops.append({"add": late.pop()})
             live += 1
@@ -237,7 +265,7 @@ def random_history(rng, max_tracks=4, max_samples=120, bad=0.05):
         else:
             tid = rng.randint(1, max(1, live))
         ts = 1000
-        adds = [o["add"] for o in ops if "add" in o]
+        adds = [o["add"] for o in ops if "add" in o and conf_accepted(o["add"])]
         if 1 <= tid <= len(adds):
             ts = adds[tid - 1]["ts"]
         dur = rng.choice([0, 1, max(1, ts // 30), max(1, ts // 2), ts, min(ts + 1, U32 - 1), rng.randrange(U32), U32 - 1]) if rng.random() < 0.5 else max(1, ts // 25)
